@@ -499,8 +499,8 @@ def shard(seed, n, tier, mode=None):
 def main(tier, seed, cases=None):
     t0 = time.time()
     if tier == 'quick':
-        kws = [dict(seed=seed * 1000 + i, n=cases or 1500, tier=tier, mode='direct') for i in range(4)]
-        kws += [dict(seed=seed * 1000 + 50 + i, n=cases or 120, tier=tier, mode='cluster') for i in range(4)]
+        kws = [dict(seed=seed * 1000 + i, n=cases or 2500, tier=tier, mode='direct') for i in range(4)]
+        kws += [dict(seed=seed * 1000 + 50 + i, n=cases or 200, tier=tier, mode='cluster') for i in range(8)]
     else:
         kws = [dict(seed=seed * 1000 + i, n=cases or 20000, tier=tier, mode='direct') for i in range(8)]
         kws += [dict(seed=seed * 1000 + 50 + i, n=cases or 2500, tier=tier, mode='cluster') for i in range(8)]
